@@ -54,6 +54,7 @@ class LoopSpec:
         self.n = n
         self.iter = None
         self.body_hint = []
+        self.fragment = {}
         self.sections = []  # (kind, [Clause])
 
 
@@ -71,6 +72,7 @@ class ItemSpec:
         self.extra_attrs = []
         self.extra_lits = []
         self.body_hint = []
+        self.fragment = {}
 
 
 def _parse_clause_line(s):
@@ -122,6 +124,11 @@ def parse_item_block(lines, start, file, path):
             spec.external_body = True
         elif b.startswith("attr "):
             spec.extra_attrs.append(b[5:].strip())
+        elif b.startswith("fragment-"):
+            mm = re.match(r"fragment-(from|to|head|tail|name)\s+(?:<<<(.*)>>>|(\S+))$", b, re.S)
+            if not mm:
+                raise WeaveError("bad fragment directive at line %d" % (i + 1))
+            spec.fragment[mm.group(1)] = (mm.group(2) if mm.group(2) is not None else mm.group(3)).replace("\\n", "\n")
         elif b.startswith("strlit "):
             spec.extra_lits += re.findall(r'"(?:[^"\\]|\\.)*"', b[7:])
         elif b.startswith("keep-derive"):
@@ -774,6 +781,25 @@ def expand(unit_path, twin=False, repo=None):
             sha = hashlib.sha256(raw.encode()).hexdigest()
             text = raw
             applied = []
+            frag_name = None
+            if spec.fragment:
+                # R-fragment: a contiguous piece of the function body becomes a function of its own;
+                # its free variables are the parameters given in the head text
+                fr = spec.fragment
+                for k in ("from", "to", "head", "tail", "name"):
+                    if k not in fr:
+                        raise WeaveError("fragment of %s :: %s lacks fragment-%s" % (file, " :: ".join(path), k))
+                if raw.count(fr["from"]) != 1:
+                    raise WeaveError("fragment-from %r matched %d times in %s" % (fr["from"], raw.count(fr["from"]), " :: ".join(path)))
+                p0 = raw.index(fr["from"])
+                p1 = raw.find(fr["to"], p0 + len(fr["from"]))
+                if p1 < 0:
+                    raise WeaveError("fragment-to %r not found in %s" % (fr["to"], " :: ".join(path)))
+                piece = raw[p0:p1 + len(fr["to"])]
+                text = fr["head"] + "\n" + piece + "\n" + fr["tail"]
+                frag_name = fr["name"]
+                applied.append({"rule": "R-fragment", "old": fr["from"][:60] + " .. " + fr["to"][:60], "new": fr["head"][:120], "count": 1,
+                                "piece_sha256": hashlib.sha256(piece.encode()).hexdigest(), "piece_lines": piece.count("\n") + 1})
             for rule, old, new, all_ in spec.replaces:
                 if all_ in ("cut", "cut?"):
                     a_, b_ = old[0].replace("\\n", "\n"), old[1].replace("\\n", "\n")
@@ -815,6 +841,8 @@ def expand(unit_path, twin=False, repo=None):
             if it.kind in ("fn", "struct", "enum", "type", "const", "trait"):
                 text = widen_vis(text, it.kind, in_trait)
             fn_label = _fn_label(path)
+            if frag_name:
+                fn_label = fn_label + "#" + frag_name
             item_index = len(w.items)
             start_line = w.cur_line()
             if it.kind == "fn":
